@@ -503,7 +503,7 @@ printf("debug> macros_parse() name_test='%s' %d\n", name_test, index);
     // of the line.
     if (ch == ';' || (ptr > 0 && ch == '/' && macro[ptr-1] == '/'))
     {
-      if (macro[ptr-1] == '/') { ptr--; }
+      if (ptr > 0 && macro[ptr-1] == '/') { ptr--; }
 
       while (true)
       {
